@@ -56,6 +56,9 @@ def main (args : List String) : IO Unit := do
   let fifo := args.contains "fifo"
   let (seen, bad) := if fifo then bfsP enabledFifo safeStepFifo inits.toArray seen0 limit else bfsP enabled safeStep inits.toArray seen0 limit
   IO.println s!"states {seen.size}"
+  let en := if fifo then enabledFifo else enabled
+  let ntrans := seen.fold (fun n s _ => n + (allEvents.filter (fun e => en s e)).length) 0
+  IO.println s!"transitions {ntrans}"
   if args.contains "closable" then
     let L := seen.toList.map (·.1)
     let G := WV.Closable.iter 80 L (Std.HashSet.ofList (L.filter WV.Closable.done))
